@@ -787,7 +787,7 @@ namespace ip {
 			{
 				// if the socket just became writeable, we need to notify the
 				// client. First we want to know whether it was not writeable.
-				const bool was_writeable = m_bytes_in_flight + m_mss > m_cwnd;
+				const bool was_writeable = m_bytes_in_flight + m_mss <= m_cwnd;
 
 				auto it = m_outstanding_packet_sizes.find(p.seq_nr);
 				assert(it != m_outstanding_packet_sizes.end());
